@@ -233,18 +233,24 @@ def run(chk, model_ok=True):
     # values of a GetBulk walk that follows a walk the caller abandoned (rows left in that iterator's buffer)
     from props import c05
     for mode in ("sync", "async"):
-        for _ in range(4 if quick else 80):
+        for _ in range(10 if quick else 200):
             mib, base = c05.gen_mib(rng)
             maxrep, cap = rng.choice([2, 5, 20]), rng.choice([2, 5, 50])
             peer = rng.choice([e2e.Peer("v2c"), e2e.Peer("v3", auth=1, priv=1, auth_kt="localized", priv_kt="localized")])
-            out = c05.run_mode(mode, peer, "bulk", values.dotted(base), maxrep, c05.agent_replies(mib, base, "bulk", maxrep, cap, False),
-                               env, False, True, True)
+            # (half of the agents answer with `cap` rows however few were asked for: every row sent must arrive)
+            over = rng.random() < 0.5
+            out = c05.run_mode(mode, peer, "bulk", values.dotted(base), maxrep,
+                               c05.agent_replies(mib, base, "bulk", maxrep, cap, False, over), env, False, True, rng.random() < 0.5)
             n_cli += 1
+            if any(not (isinstance(y, tuple) and len(y) == 2) for y in out.yields):
+                fail(f"{mode} getbulk walk of {values.dotted(base)} yielded a non-(oid, value) item", f"# {mode} {peer.label}")
+                continue
             got = [(o, e2e.canon(v)) for o, v in out.yields]
             exp = [(o, e2e.canon(v)) for o, v in c05.subtree(mib, base)]
             if got != exp:
-                fail(f"{mode} getbulk walk of {values.dotted(base)} after an abandoned walk returned {got[:4]}.. instead of the "
-                     f"agent's rows {exp[:4]}..", f"# {mode} {peer.label} base={values.dotted(base)}")
+                fail(f"{mode} getbulk walk of {values.dotted(base)} (max_repetitions {maxrep}, agent sends {cap if over else min(maxrep, cap)} rows "
+                     f"per reply) returned {len(got)} rows {got[:3]}.. instead of the agent's {len(exp)} rows {exp[:3]}..",
+                     f"# {mode} {peer.label} base={values.dotted(base)}")
     st2 = streams.Streams(chk, model_ok)
     st2.add("topy-e2e-replies", topy)
     st2.run()
